@@ -31,7 +31,7 @@ type Header struct {
 
 var (
 	headerNameRegex = regexp.MustCompile(`^[A-Za-z0-9-]+$`)
-	headerLineRegex = regexp.MustCompile(`^([A-Za-z0-9-]+):\s*(.*)\r?\n?$`)
+	headerLineRegex = regexp.MustCompile(`^([A-Za-z0-9-]+):\s*([^\r\n]*)\r?\n?$`)
 )
 
 // ParseHeader supports the following syntax:
